@@ -156,7 +156,7 @@ package geojson
 
 // ---------------------------------------------------------------- Search: the child-search protocol (both paths satisfy one set-based contract)
 //@ func collection.Search
-//@   props C10 C08
+//@   props C10 C08 C09
 //@   arith order
 //@   requires CollInv(g)
 //@   call 0 use treeItem(g, $idx)
@@ -805,7 +805,7 @@ package geojson
 //@ spec func indexWanted(c *collection, n int) bool { countNonEmptyUpTo(c, collN(c)) > 0 && n != 0 && countNonEmptyUpTo(c, collN(c)) >= n }
 
 //@ func collection.parseInitRectIndex
-//@   props C10 C11 C08
+//@   props C10 C11 C08 C09
 //@   arith order
 //@   requires g != nil && opts != nil && CollKidsInv(g) && g.prect == zeroRect() && g.tree == nil
 //@   requires Acyclic: forall j int :: (0 <= j && j < collN(g) && isCollObjK(collChild(g,j))) ==> collOf(collChild(g,j)) != g
